@@ -801,8 +801,8 @@ func (ex *Exec) atReturn(f *Frame, st *State, ret *ssa.Return, res []Val) {
 			continue
 		}
 		t, err := ec.formula(c.Src)
-		if err != nil && c.Optional && strings.Contains(err.Error(), "unknown identifier") {
-			continue // speaks about a local that does not exist on this path
+		if err != nil && c.Optional {
+			continue // speaks about a local that does not exist (or has another type) on this path
 		}
 		if err != nil {
 			ex.aborted = fmt.Sprintf("contract error (%s): %v", c.Line, err)
